@@ -299,6 +299,9 @@ def shrink_soc(inp, tol, budget_s=60):
         for k in range(len(c.get("periphs", []))):
             if len(c["periphs"]) > 1:
                 d = copy.deepcopy(c); del d["periphs"][k]; yield d
+        for k, r in enumerate(c.get("rams", [])):
+            if r.get("init") and len(r["init"]["bytes"]) > 1:
+                d = copy.deepcopy(c); d["rams"][k]["init"]["bytes"] = r["init"]["bytes"][:(len(r["init"]["bytes"]) + 1) // 2]; yield d
         for k, p in enumerate(c.get("periphs", [])):
             if p.get("mems"):
                 d = copy.deepcopy(c); d["periphs"][k].pop("mems"); yield d
